@@ -1,6 +1,7 @@
 //! Deterministic simulation with fault injection for chrono's `Local` (properties C05, C16, C18).
 
 mod c18;
+mod check05;
 mod check18;
 mod gen;
 mod model;
@@ -61,6 +62,11 @@ fn main() {
                 println!("C18 tier={} seed={} threads={}", opts.tier, opts.seed, opts.threads);
                 check18::run(&opts, only)
             }
+            Some("C05") => {
+                let only = config.as_deref().map(|c| check05::Class::parse(c).unwrap_or_else(|| usage()));
+                println!("C05 tier={} seed={} threads={}", opts.tier, opts.seed, opts.threads);
+                check05::run(&opts, only)
+            }
             _ => usage(),
         },
         Some("shard") => {
@@ -78,6 +84,13 @@ fn main() {
                     let seed: u64 = pos[3].parse().unwrap_or_else(|_| usage());
                     check18::shard(cfg, seed, from, to, &out)
                 }
+                "C05" => {
+                    // sim shard C05 <class> <seed> <tier> <scale> <from> <to> <out>
+                    let class = check05::Class::parse(&pos[2]).unwrap_or_else(|| usage());
+                    let seed: u64 = pos[3].parse().unwrap_or_else(|_| usage());
+                    let scale: f64 = pos[5].parse().unwrap_or_else(|_| usage());
+                    check05::shard(class, seed, &pos[4], scale, from, to, &out)
+                }
                 _ => usage(),
             }
         }
@@ -93,6 +106,7 @@ fn main() {
             });
             match v["kind"].as_str() {
                 Some("c18-plan") => check18::replay(&v),
+                Some("c05-case") => check05::replay(&v),
                 _ => {
                     eprintln!("harness error: unknown replay kind");
                     2
